@@ -1,5 +1,6 @@
 /- AGREEMENT: on every spelling of a lexeme list, the characters answer a request as the lexemes do -/
 import WrapModel.Lemmas.LiftLemmas
+import WrapModel.Lemmas.TwoWord
 
 namespace WrapModel.Tok
 open WrapModel WrapModel.Lex
@@ -64,9 +65,23 @@ theorem notOkKw_rest {k : String} (h : okKw k = false) (hne : k ≠ "") : (spanP
   have : (k != "") = true := by simpa using hne
   simp [okKw, hall, this] at h
 
+theorem kwTail_spec {k : String} {tail : List Char} (h : kwTail k = some tail) :
+    (spanP isWordChar k.toList).2 = ' ' :: tail ∧ tail ≠ [] ∧ ∀ d ∈ tail, isWordChar d = true := by
+  unfold kwTail at h
+  split at h
+  · next tl hs =>
+    split at h
+    · next hc =>
+      cases h
+      simp only [Bool.and_eq_true, bne_iff_ne, ne_eq, List.all_eq_true] at hc
+      exact ⟨hs, hc.1, hc.2⟩
+    · cases h
+  · cases h
+
 /-- the negative answers in front of a word depend on the characters `w ++ r'` only -/
 theorem word_no (q : Q) {w : String} {r : Src} (ls : List Lexeme) (hwl : isWordLike w.toList) (haw : AfterWord r)
-    (hsg' : skipGap (w.toList ++ r) = w.toList ++ r) (h : ansWord q w ls = .no) : answerC q (w.toList ++ r) = none := by
+    (hsg' : skipGap (w.toList ++ r) = w.toList ++ r) (hrest : ls ≠ [] → Spells ls r) (h : ansWord q w ls = .no) :
+    answerC q (w.toList ++ r) = none := by
   obtain ⟨hall, c, t, hw⟩ := wordLike_chars hwl
   have hc : isWordChar c = true := hall c (by simp [hw])
   have hsg2 : skipGap (c :: (t ++ r)) = c :: (t ++ r) := by simpa [hw] using hsg'
@@ -82,9 +97,41 @@ theorem word_no (q : Q) {w : String} {r : Src} (ls : List Lexeme) (hwl : isWordL
         simp [answerC, kw_word_ne k w r hkall hall haw hne' hsg']
     | false =>
       by_cases hke : k = ""
-      · subst hke; simp [ansWord, okKw] at h
+      · subst hke
+        have : twoWordNo "" ls = false := by unfold twoWordNo kwTail; simp [spanP]
+        simp [ansWord, okKw, this] at h
       · by_cases hh : kwHead k = w.toList
-        · simp [ansWord, hk, hh] at h
+        · -- a two-word keyword whose first word stands here: the next lexeme is another word than its second word
+          have h2 : twoWordNo k ls = true := by
+            cases h2 : twoWordNo k ls with
+            | true => rfl
+            | false => simp [ansWord, hk, hh, h2] at h
+          unfold twoWordNo at h2
+          cases htl : kwTail k with
+          | none => simp [htl] at h2
+          | some tail =>
+            obtain ⟨hsnd, htne, htall⟩ := kwTail_spec htl
+            have hsp := spanP_split isWordChar k.toList
+            cases ls with
+            | nil => simp [htl] at h2
+            | cons l ls' =>
+              cases l with
+              | sym _ => simp [htl] at h2
+              | atom _ _ _ _ => simp [htl] at h2
+              | word w2 =>
+                have hne : tail ≠ w2.toList := by simpa [htl] using h2
+                have hrest := hrest (by simp)
+                cases hrest with
+                | cons g _ _ r2 hg _ hok2 _ =>
+                  obtain ⟨hwl2, haw2⟩ := hok2
+                  obtain ⟨hall2, c2, t2, hw2⟩ := wordLike_chars hwl2
+                  have hkl : k.toList = w.toList ++ ' ' :: tail := by
+                    rw [hsp.1, ← hh, hsnd]; rfl
+                  simp only [Lexeme.chars] at hsg'
+                  simp only [answerC, Lexeme.chars, Option.map_eq_none_iff]
+                  apply kw_of_kwFails
+                  rw [hsg', hkl, stripPrefix_append_left]
+                  exact kwTest_twoWord tail w2.toList g r2 htall htne hg hall2 (by simp [hw2]) haw2 hne
         · have hsp := spanP_split isWordChar k.toList
           have hrest := notOkKw_rest hk hke
           have := stripPrefix_kwhead_ne (spanP isWordChar k.toList).1 (spanP isWordChar k.toList).2 w.toList r
@@ -97,16 +144,98 @@ theorem word_no (q : Q) {w : String} {r : Src} (ls : List Lexeme) (hwl : isWordL
       have hcc : c' ≠ c := fun he => by subst he; simp [hc] at hnw
       simp only [answerC, Lex.lit, ht', hw, List.cons_append, hsg2, stripPrefix]
       simp [hcc]
-    · exfalso
-      simp only [ansWord] at h
-      split at h
-      · next hc2 => simp only [Bool.and_eq_true, decide_eq_true_eq, bne_iff_ne, ne_eq] at hc2; exact hcond hc2
-      · simp at h
+    · -- the dunder marker in front of a word that does not begin with `__`
+      have h2 : t' = "__" ∧ startsDunder w = false := by
+        simp only [ansWord] at h
+        split at h
+        · next hc2 => simp only [Bool.and_eq_true, decide_eq_true_eq, bne_iff_ne, ne_eq] at hc2; exact absurd hc2 hcond
+        · split at h
+          · next hc3 => simpa using hc3
+          · cases h
+      obtain ⟨rfl, hsd⟩ := h2
+      simp only [answerC, Lex.lit, hsg', Option.map_eq_none_iff, dunder_head]
+      unfold startsDunder at hsd
+      rw [hw] at hsd ⊢
+      cases t with
+      | nil =>
+        cases r with
+        | nil => simp [stripPrefix]
+        | cons c2 r2 =>
+          have hk : isKwChar c2 = false := haw c2 r2 rfl
+          have : c2 ≠ '_' := by intro he; subst he; simp [isKwChar, isWordChar] at hk
+          simp only [List.cons_append, List.nil_append, stripPrefix]
+          by_cases hcu : c = '_'
+          · subst hcu; simp [this.symm]
+          · simp [Ne.symm hcu]
+      | cons c2 t2 =>
+        simp only [List.cons_append, stripPrefix]
+        by_cases hcu : c = '_'
+        · subst hcu
+          have : c2 ≠ '_' := by intro he; subst he; simp at hsd
+          simp [this.symm]
+        · simp [Ne.symm hcu]
   | eof =>
     simp only [answerC, Lex.eof, hw, List.cons_append, hsg2]
     simp
   | alpha => simp [ansWord] at h
-  | stdPair => simp [ansWord] at h
+  | stdPair =>
+    by_cases hstd : w = "std"
+    · subst hstd
+      have h2 : stdPairNo ls = true := by
+        cases h2 : stdPairNo ls with
+        | true => rfl
+        | false => simp [ansWord, h2] at h
+      unfold stdPairNo at h2
+      cases ls with
+      | nil => simp at h2
+      | cons l1 ls1 =>
+        cases l1 with
+        | word _ => simp at h2
+        | atom _ _ _ _ => simp at h2
+        | sym t =>
+          cases ls1 with
+          | nil => simp at h2
+          | cons l2 ls2 =>
+            cases l2 with
+            | sym _ => simp at h2
+            | atom _ _ _ _ => simp at h2
+            | word w2 =>
+              simp only [Bool.and_eq_true, beq_iff_eq, bne_iff_ne, ne_eq] at h2
+              obtain ⟨ht, hw2ne⟩ := h2
+              subst ht
+              have hrest := hrest (by simp)
+              cases hrest with
+              | cons g1 _ _ r1 hg1 _ _ hsp1 =>
+                cases hsp1 with
+                | cons g2 _ _ r2 hg2 _ hok2 _ =>
+                  obtain ⟨hwl2, haw2⟩ := hok2
+                  obtain ⟨hall2, _, _, _⟩ := wordLike_chars hwl2
+                  have hts2 : TokStart (w2.toList ++ r2) := tokStart_of_lexOK (l := .word w2) ⟨hwl2, haw2⟩
+                  simp only [Lexeme.chars] at hsg'
+                  simp only [answerC, Lexeme.chars, Option.map_eq_none_iff, Lex.stdPair, Lex.lit]
+                  rw [hsg']
+                  have e : "std::".toList = "std".toList ++ "::".toList := by decide
+                  rw [e, stripPrefix_append_left]
+                  by_cases hg1e : g1 = []
+                  · subst hg1e
+                    simp only [List.nil_append, List.append_assoc, stripPrefix_append]
+                    have hk := kw_word_ne "pair" w2 r2 (by decide) hall2 haw2
+                      (fun he => hw2ne (String.ext he).symm) (skipGap_tokStart hts2)
+                    unfold Lex.kw at hk ⊢
+                    rw [List.append_assoc] at *
+                    rw [skipGap_gap hg2 hts2]
+                    rw [skipGap_tokStart hts2] at hk
+                    exact hk
+                  · have e2 : "::".toList = ':' :: [':'] := by decide
+                    have := stripPrefix_gap_none hg1 hg1e ':' [':'] ("::".toList ++ (g2 ++ w2.toList ++ r2)) (by decide) (by decide)
+                    rw [e2] at this ⊢
+                    simp only [List.append_assoc] at this ⊢
+                    rw [this]
+    · have hne : "std".toList ≠ w.toList := fun he => hstd (String.ext he).symm
+      have := stripPrefix_kwhead_ne "std".toList "::".toList w.toList r (by decide) (by intro c t he; cases he; decide) (by decide) hall haw hne
+      have e : "std::".toList = "std".toList ++ "::".toList := by decide
+      simp only [answerC, Lex.stdPair, Lex.lit, hsg', Option.map_eq_none_iff]
+      rw [e, this]
   | opsym => simp [ansWord] at h
   | dflt => simp [ansWord] at h
   | header => simp [ansWord] at h
@@ -120,7 +249,7 @@ theorem agree_word (q : Q) {g : Src} {w : String} {ls : List Lexeme} {r : Src} (
     intro h
     by_cases hh : q = .header
     · subst hh; simp [answerL, ansWord] at h
-    · rw [hred q hh]; exact word_no q ls hwl haw hsg' h
+    · rw [hred q hh]; exact word_no q ls hwl haw hsg' (fun _ => hrest) h
   refine ⟨fun tk ls' h => ?_, hno⟩
   cases q with
   | word =>
@@ -142,11 +271,21 @@ theorem agree_word (q : Q) {g : Src} {w : String} {ls : List Lexeme} {r : Src} (
       · simp [answerL, ansWord, hk, hwk] at h
     | false =>
       simp only [answerL, ansWord, hk, Bool.false_eq_true, if_false] at h
-      split at h <;> cases h
-  | lit t' => simp only [answerL, ansWord] at h; split at h <;> cases h
+      split at h
+      · cases h
+      · split at h <;> cases h
+  | lit t' =>
+    simp only [answerL, ansWord] at h
+    split at h
+    · cases h
+    · split at h <;> cases h
   | eof => simp [answerL, ansWord] at h
   | alpha => simp [answerL, ansWord] at h
-  | stdPair => simp [answerL, ansWord] at h
+  | stdPair =>
+    simp only [answerL, ansWord] at h
+    split at h
+    · cases h
+    · split at h <;> cases h
   | opsym => simp [answerL, ansWord] at h
   | dflt => simp [answerL, ansWord] at h
   | header => simp [answerL, ansWord] at h
@@ -159,7 +298,7 @@ open WrapModel WrapModel.Lex
 theorem agree_sym (q : Q) {g : Src} {t : String} {ls : List Lexeme} {r : Src} (hg : Gap g) (hok : LexOK (.sym t) r)
     (hrest : Spells ls r) (hd : (t == "__") = false) : Agree q (.sym t :: ls) (g ++ (Lexeme.sym t).chars ++ r) := by
   obtain ⟨hsg', hred⟩ := reduce_gap hg hok
-  obtain ⟨hsym, _⟩ := hok
+  obtain ⟨hsym, hcolon⟩ := hok
   have hd' : t ≠ "__" := by simpa using hd
   obtain ⟨c, tl, ht, hnw, _, _⟩ := symbol_head t hsym hd'
   simp only [Lexeme.chars] at hsg' hred ⊢
@@ -201,10 +340,27 @@ theorem agree_sym (q : Q) {g : Src} {t : String} {ls : List Lexeme} {r : Src} (h
       rw [hred (.lit t') (by simp)]
       simp [answerC, Lex.lit, hsg', stripPrefix_append]
     | false =>
-      cases hpre : (isPrefixOfS t' t || isPrefixOfS t t') with
-      | true => exact ⟨fun tk ls' h => by simp [answerL, hd, ansSym, heq, hpre] at h, fun h => by simp [answerL, hd, ansSym, heq, hpre] at h⟩
+      cases hcol : (t' == "::" && t == ":") with
+      | true =>
+        simp only [Bool.and_eq_true, beq_iff_eq] at hcol
+        obtain ⟨rfl, rfl⟩ := hcol
+        refine ⟨fun tk ls' h => by simp [answerL, ansSym] at h, fun _ => ?_⟩
+        rw [hred (.lit "::") (by simp)]
+        have hnc := hcolon rfl
+        have e1 : "::".toList = ':' :: [':'] := by decide
+        have e2 : ":".toList = [':'] := by decide
+        have hsg3 : skipGap (':' :: r) = ':' :: r := by simpa [e2] using hsg'
+        simp only [answerC, Lex.lit, Option.map_eq_none_iff, e1, e2, List.cons_append, List.nil_append, hsg3]
+        cases r with
+        | nil => simp [stripPrefix]
+        | cons c2 r2 =>
+          have : c2 ≠ ':' := hnc c2 r2 rfl
+          simp [stripPrefix, this.symm]
       | false =>
-        refine ⟨fun tk ls' h => (by by_cases hm : t' ∈ symbols <;> simp [answerL, hd, ansSym, heq, hpre, hm] at h), fun _ => ?_⟩
+      cases hpre : (isPrefixOfS t' t || isPrefixOfS t t') with
+      | true => exact ⟨fun tk ls' h => by simp [answerL, hd, ansSym, heq, hpre, hcol] at h, fun h => by simp [answerL, hd, ansSym, heq, hpre, hcol] at h⟩
+      | false =>
+        refine ⟨fun tk ls' h => (by by_cases hm : t' ∈ symbols <;> simp [answerL, hd, ansSym, heq, hpre, hm, hcol] at h), fun _ => ?_⟩
         simp only [Bool.or_eq_false_iff, isPrefixOfS] at hpre
         rw [hred (.lit t') (by simp)]
         simp [answerC, Lex.lit, hsg', stripPrefix_incomparable t'.toList t.toList r hpre.1 hpre.2]
@@ -227,7 +383,22 @@ theorem agree_dunder (q : Q) {g : Src} {ls : List Lexeme} {r : Src} (hg : Gap g)
   cases q with
   | lit t' =>
     cases heq : t' == "__" with
-    | false => exact ⟨fun tk ls' h => by simp [answerL, ansDunder, heq] at h, fun h => by simp [answerL, ansDunder, heq] at h⟩
+    | false =>
+      refine ⟨fun tk ls' h => ?_, fun h => ?_⟩
+      · simp only [answerL, hdd, if_true, ansDunder, heq, Bool.false_eq_true, if_false] at h
+        split at h <;> cases h
+      · have hmem : t' ∈ symbols := by
+          simp only [answerL, hdd, if_true, ansDunder, heq, Bool.false_eq_true, if_false] at h
+          split at h
+          · assumption
+          · cases h
+        have hne' : t' ≠ "__" := by simpa using heq
+        obtain ⟨c', t'', ht', hnw, _, _⟩ := symbol_head t' hmem hne'
+        have hcc : c' ≠ '_' := fun he => by subst he; simp [isWordChar] at hnw
+        rw [hred (.lit t') (by simp)]
+        have h2 : skipGap ('_' :: '_' :: r) = '_' :: '_' :: r := by simpa using hsg'
+        simp only [answerC, Lex.lit, dunder_head, List.cons_append, List.nil_append, h2, ht', stripPrefix, Option.map_eq_none_iff]
+        simp [hcc]
     | true =>
       have : t' = "__" := by simpa using heq
       subst this
@@ -280,10 +451,47 @@ theorem agree_atom (q : Q) {g : Src} {q' : Q} {text tok lead : String} {ls : Lis
         have : skipGap (c :: (t ++ r)) = c :: (t ++ r) := by simpa [htl] using hsg'
         simp only [answerC, Lex.eof, htl, List.cons_append, this]
         simp
-    · -- a foreign request: decided by the leading word, if the atom has one
+    · cases hinc : kwIncomparable q q' with
+      | true =>
+        -- two keywords, neither a prefix of the other
+        refine ⟨fun tk ls' h => by simp [answerL, ansAtom, heq, hinc] at h, fun _ => ?_⟩
+        cases q with
+        | kw k =>
+          cases q' with
+          | kw k' =>
+            simp only [kwIncomparable, Bool.and_eq_true, Bool.not_eq_true'] at hinc
+            -- the atom's text is the keyword itself
+            have hts : skipGap (text.toList ++ r) = text.toList ++ r := hsg'
+            simp only [answerC, Option.map_eq_some_iff, Prod.mk.injEq] at hans
+            obtain ⟨r0, hkw, _, hr0⟩ := hans
+            subst hr0
+            unfold Lex.kw at hkw
+            rw [hts] at hkw
+            have hsp : stripPrefix k'.toList (text.toList ++ r0) = some r0 := by
+              cases hs : stripPrefix k'.toList (text.toList ++ r0) with
+              | none => simp [hs] at hkw
+              | some x =>
+                cases x with
+                | nil => simp [hs] at hkw; simp [← hkw]
+                | cons c t =>
+                  simp only [hs] at hkw
+                  split at hkw
+                  · cases hkw
+                  · simpa using hkw
+            have htxt : text.toList = k'.toList := by
+              have := stripPrefix_some hsp
+              exact List.append_cancel_right this
+            rw [hred (.kw k) (by simp), htxt]
+            simp only [answerC, Option.map_eq_none_iff]
+            unfold Lex.kw
+            rw [← htxt, hts, htxt, stripPrefix_incomparable k.toList k'.toList r0 hinc.1 hinc.2]
+          | _ => simp [kwIncomparable] at hinc
+        | _ => simp [kwIncomparable] at hinc
+      | false =>
+      -- a foreign request: decided by the leading word, if the atom has one
       have hshape : answerL q (.atom q' text tok lead :: ls) =
-          (if lead != "" then (match ansWord q lead ls with | .no => .no | _ => .stuck) else .stuck) := by
-        simp only [answerL, ansAtom, heq, if_false]
+          (if lead != "" then (match ansWord q lead [] with | .no => .no | _ => .stuck) else .stuck) := by
+        simp only [answerL, ansAtom, heq, if_false, hinc, Bool.false_eq_true]
         cases q <;> first | rfl | exact absurd rfl hqeof
       refine ⟨fun tk ls' h => ?_, fun h => ?_⟩
       · rw [hshape] at h
@@ -296,7 +504,7 @@ theorem agree_atom (q : Q) {g : Src} {q' : Q} {text tok lead : String} {ls : Lis
           have hl' : lead ≠ "" := by simpa using hl
           rcases hlead with hl0 | ⟨tail, htxt, hwl, haw⟩
           · exact absurd hl0 hl'
-          · have hno : ansWord q lead ls = .no := by
+          · have hno : ansWord q lead [] = .no := by
               split at h
               · assumption
               · cases h
@@ -305,7 +513,7 @@ theorem agree_atom (q : Q) {g : Src} {q' : Q} {text tok lead : String} {ls : Lis
             · rw [hred q hh, htxt, List.append_assoc]
               have hsg2 : skipGap (lead.toList ++ (tail ++ r)) = lead.toList ++ (tail ++ r) := by
                 rw [← List.append_assoc, ← htxt]; exact hsg'
-              exact word_no q ls hwl haw hsg2 hno
+              exact word_no q [] hwl haw hsg2 (fun h => absurd rfl h) hno
         · cases h
 
 /-- AGREEMENT for every request and every spelling -/
